@@ -68,6 +68,7 @@ func T2(rng *rand.Rand) *World {
 // goverter:converter
 // goverter:enum:unknown @error
 type Converter interface {
+    // goverter:enum:transform regex In(\w+) Out$1
 ` + lines + `    Convert(source In) (Out, error)
 }
 
@@ -262,7 +263,7 @@ const (
 )
 %s`, p, outfile, methods, types)
 		// enum names differ by prefix: add a transformer so generation succeeds
-		files[p+"/c.go"] = strings.Replace(files[p+"/c.go"], "// goverter:enum:unknown @panic\n", "// goverter:enum:unknown @panic\n// goverter:enum:transform regex (.*) Paint$1\n", 1)
+		files[p+"/c.go"] = strings.Replace(files[p+"/c.go"], "type Converter interface {\n", "type Converter interface {\n    // goverter:enum:transform regex (.*) Paint$1\n    ConvColor(source Color) Paint\n", 1)
 		pats = append(pats, "./"+p)
 	}
 	sort.Strings(pats)
@@ -299,8 +300,10 @@ func T10(rng *rand.Rand) *World {
 // goverter:extend ExtA ExtB
 type Converter interface {
     // goverter:context c
-    Convert(source Input, c CtxC) Output
+    // goverter:context f
+    Convert(source Input, c CtxC, f CtxF) Output
 }
+type CtxF struct{ X int }
 
 // goverter:context a
 // goverter:context b
